@@ -59,6 +59,11 @@ def run(e: Engine, rep: Report):
     rep.rule('R1.10', 'a builtin used by a package __init__ is not '
              'shadowed by a submodule of the same name (importing '
              'slimta.queue.dict rebinds `dict` in slimta.queue)')
+    rep.rule('R1.12', 'relay clients report a recipient as accepted only '
+             'when the server accepted it: failure entries only under an '
+             'error reply / non-zero exit, success entries never overwrite '
+             'a recorded failure, the request is resolved before any further '
+             'protocol step (= C11 N3)')
     rep.rule('R1.11', 'no greenlet of the queue waits for a slot of a '
              'bounded pool while occupying one on a cycle of the pool-order '
              'graph (the handler that would settle, retry or bounce the '
@@ -75,6 +80,14 @@ def run(e: Engine, rep: Report):
     for o in sub.obls:
         rep.add('R1.4', o.where, o.text, o.status, o.what, o.loc, o.witness,
                 o.nontrivial, o.reason)
+    rep.evaluations += sub.evaluations
+    rep.functions |= sub.functions
+    sub = Report(rep.prop, rep.tier, rep.repo)
+    c11.n3(e, sub, K)
+    for o in sub.obls:
+        rep.add('R1.12', o.where, o.text, o.status, o.what, o.loc, o.witness,
+                o.nontrivial, o.reason)
+    rep.errors += sub.errors
     rep.evaluations += sub.evaluations
     rep.functions |= sub.functions
     r15(e, rep, K, 'R1.5')
